@@ -61,6 +61,15 @@ let handle (toks : string list) : string =
             | None -> if model <> impl then "diff sliding_trace model=" ^ model
                       else if List.exists (function EvBatch b -> List.length b.b_rows >= 2 | _ -> false) tr then "ok nt" else "ok")
        | _ -> "bad line")
+  | "N" :: timeout :: ooo :: late :: base :: rest ->
+      (match split_hash rest with
+       | [ []; ops; obs ] | [ ops; obs ] ->
+           let c = { ntimeout = zs timeout; nooo = zs ooo; nlateness = zs late } in
+           let hops = Sess.parse_nops (zs base) ops in
+           let model = Sess.show_strace (Sess.run_nhops c hops) in
+           let impl = String.concat " " obs in
+           if model <> impl then "diff session_trace model=" ^ model else "ok nt"
+       | _ -> "bad line")
   | _ -> "bad line"
 
 let () = Registry.register "C02" handle
